@@ -313,7 +313,7 @@ func fullDump() string {
 	return string(buf[:n])
 }
 
-// watched runs a case body on its own goroutine. If it has not returned after a generous period the goroutine states are
+// watched runs a case body on its own goroutine. If it has not returned after a generous period (90 s) the goroutine states are
 // inspected: when every goroutine inside library code is blocked on a synchronisation primitive and two dumps taken a
 // second apart show the same blocked set, nothing can ever release them - that state (not the elapsed time) is the
 // deadlock verdict. Anything else after the period is only inconclusive.
@@ -323,7 +323,7 @@ func watched(c *fw.Ctx, in func() string, body func()) {
 		defer close(done)
 		guard(c, in, body)
 	}()
-	deadline := time.NewTimer(20 * time.Second)
+	deadline := time.NewTimer(90 * time.Second)
 	defer deadline.Stop()
 	select {
 	case <-done:
